@@ -13,9 +13,13 @@
        permuted the same way and the CLS output is unchanged, given that torch's
        TransformerEncoder is permutation-equivariant over tokens (hypothesis; shown satisfiable by
        the TabTransformer layer);
-     * ExcelFormerConv is causal: output column i equals an expression in the first i+1 input
-       columns only (needs: 0 neutral for +, absorbing for * and /, and H_mask_kills: a score
-       with the additive -1e5 mask has softmax numerator exactly 0);  that the footprint is exactly
+     * ExcelFormerConv is causal UNDER BOUNDED SCORES: output column i equals an expression in the
+       first i+1 input columns only.  Needs: 0 neutral for +, absorbing for * and /, and
+       H_mask_kills restricted to a set `bounded` of scores: a bounded score with the additive -1e5
+       mask has softmax numerator exactly 0 -- together with the premise that every q.k score of the
+       layer is bounded.  The mask is ADDITIVE: in IEEE arithmetic a score gap of ~1e5 defeats it
+       (ExcelFormerConv with attention parameters ~N(0, 50^2) is observably not causal); the
+       theorem does not cover that regime, the harness asserts and records the bound it works in;  that the footprint is exactly
        lower-triangular (column i DOES depend on every column <= i) is a finite-domain statement
        checked by computation in the provenance instance, cols <= 4, heads <= 2;
      * TromptConv keeps the prompt shape [P, C] and rejects mismatched shapes (the source's
@@ -25,7 +29,7 @@
    not associative: equivariance holds to round-off, checked to 1e-9), that exp(-1e5/sqrt(d) + s)
    underflows to exactly 0.0 (H_mask_kills; checked as exact zero influence), that torch's blocks
    satisfy the axis hypotheses, evaluation mode. *)
-From Coq Require Import List Arith Bool ZArith Permutation.
+From Coq Require Import List Arith Bool ZArith Permutation Lia.
 From PF Require Import Lib.Chunks Lib.Tensor Model.Layers Model.LayersRun Proofs.LayersProofs.
 Import ListNotations.
 
@@ -89,32 +93,40 @@ Section C15.
   Proof. exact (@ft_convs_row_total R). Qed.
 
   (* ---------------- ExcelFormerConv ---------------- *)
+  (* 1 < n: the configuration num_cols = 1 is excluded from the model (the code then accepts inputs
+     with any number of columns, unmasked; Model/Layers.v says None) *)
   Theorem excel_conv_is_rowwise : forall n H d Norm1 norm1 LinQ lq LinK lk LinV lv LinOut lout Norm2 norm2 A1 a1 A2 a2,
-    0 < H -> acts_lastaxis Norm1 norm1 -> acts_lastaxis LinQ lq -> acts_lastaxis LinK lk -> acts_lastaxis LinV lv ->
+    1 < n -> 0 < H -> acts_lastaxis Norm1 norm1 -> acts_lastaxis LinQ lq -> acts_lastaxis LinK lk -> acts_lastaxis LinV lv ->
     opt_lastaxis LinOut lout -> acts_lastaxis Norm2 norm2 -> acts_lastaxis A1 a1 -> acts_lastaxis A2 a2 ->
     forall X, excel_conv O n H d Norm1 LinQ LinK LinV LinOut Norm2 A1 A2 X =
               opt_all (map (excel_conv_row O n H d norm1 lq lk lv lout norm2 a1 a2) X).
-  Proof. exact (excel_conv_rowwise O). Qed.
+  Proof. intros until 1. apply excel_conv_rowwise. Qed.
 
   (* causality, strong form: output column i is THE FUNCTION excel_col_prefix of the first i+1
      input columns (an attention over the prefix, with no mask) *)
   Theorem excel_conv_output_from_prefix : forall n H d norm1 lq lk lv lout norm2 a1 a2 (row : mat) i,
     (forall x, oadd O (o0 O) x = x) -> (forall x, omul O (o0 O) x = o0 O) -> (forall x, odiv O (o0 O) x = o0 O) ->
-    (forall s, ofn O FExp (ofn O FScale (oadd O s (onegbig O))) = o0 O) ->          (* H_mask_kills *)
-    0 < H -> (forall x, length (lv x) = H * d) -> length row = n -> i < n ->
+    forall bounded : R -> Prop,
+    (forall s, bounded s -> ofn O FExp (ofn O FScale (oadd O s (onegbig O))) = o0 O) ->   (* H_mask_kills *)
+    0 < H -> (forall x, length (lv x) = H * d) ->
+    (forall h x y, bounded (dot O (head_slice d h (lq x)) (head_slice d h (lk y)))) ->    (* scores bounded *)
+    length row = n -> i < n ->
     nth_error (excel_conv_core_row O n H d norm1 lq lk lv lout norm2 a1 a2 row) i =
     excel_col_prefix O H d norm1 lq lk lv lout norm2 a1 a2 (firstn (S i) row) i.
-  Proof. intros; apply excel_conv_causal; assumption. Qed.
+  Proof. intros; eapply excel_conv_causal; eassumption. Qed.
 
   (* causality as the property states it: columns after i do not influence output column i *)
   Theorem excel_conv_unaffected_by_later_columns : forall n H d norm1 lq lk lv lout norm2 a1 a2 (row row' : mat) i,
     (forall x, oadd O (o0 O) x = x) -> (forall x, omul O (o0 O) x = o0 O) -> (forall x, odiv O (o0 O) x = o0 O) ->
-    (forall s, ofn O FExp (ofn O FScale (oadd O s (onegbig O))) = o0 O) ->          (* H_mask_kills *)
-    0 < H -> (forall x, length (lv x) = H * d) -> length row = n -> length row' = n -> i < n ->
+    forall bounded : R -> Prop,
+    (forall s, bounded s -> ofn O FExp (ofn O FScale (oadd O s (onegbig O))) = o0 O) ->   (* H_mask_kills *)
+    0 < H -> (forall x, length (lv x) = H * d) ->
+    (forall h x y, bounded (dot O (head_slice d h (lq x)) (head_slice d h (lk y)))) ->    (* scores bounded *)
+    length row = n -> length row' = n -> i < n ->
     firstn (S i) row = firstn (S i) row' ->
     nth_error (excel_conv_core_row O n H d norm1 lq lk lv lout norm2 a1 a2 row) i =
     nth_error (excel_conv_core_row O n H d norm1 lq lk lv lout norm2 a1 a2 row') i.
-  Proof. intros; apply excel_conv_suffix_independent; assumption. Qed.
+  Proof. intros; eapply excel_conv_suffix_independent; eassumption. Qed.
 
   (* ---------------- TromptConv ---------------- *)
   Theorem trompt_conv_is_rowwise : forall n C P (ep ec : mat) (w : vec) Lin lin (GN : list t3 -> list t3) gn_r,
@@ -218,15 +230,32 @@ Proof. cbn. split; intros; ring. Qed.
 Example causality_hypotheses_hold_in_extended_Z :
   (forall x, oadd ez_ops (o0 ez_ops) x = x) /\ (forall x, omul ez_ops (o0 ez_ops) x = o0 ez_ops) /\
   (forall x, odiv ez_ops (o0 ez_ops) x = o0 ez_ops) /\
-  (forall s, ofn ez_ops FExp (ofn ez_ops FScale (oadd ez_ops s (onegbig ez_ops))) = o0 ez_ops).
+  (forall s, True -> ofn ez_ops FExp (ofn ez_ops FScale (oadd ez_ops s (onegbig ez_ops))) = o0 ez_ops).
 Proof.
   cbn. repeat split; intros x; destruct x as [[| |]|]; reflexivity.
+Qed.
+
+(* ... and in the plain integers with an underflowing exp (exp x = 0 for x <= -50000, mask -100000):
+   every score with |s| <= 40000 is killed, a score of 200000 is NOT -- the boundedness premise is
+   necessary, as it is for IEEE floats. *)
+Example causality_hypotheses_hold_for_bounded_scores_only :
+  (forall x, oadd zb_ops (o0 zb_ops) x = x) /\ (forall x, omul zb_ops (o0 zb_ops) x = o0 zb_ops) /\
+  (forall x, odiv zb_ops (o0 zb_ops) x = o0 zb_ops) /\
+  (forall s, zb_bounded s -> ofn zb_ops FExp (ofn zb_ops FScale (oadd zb_ops s (onegbig zb_ops))) = o0 zb_ops) /\
+  ofn zb_ops FExp (ofn zb_ops FScale (oadd zb_ops 200000%Z (onegbig zb_ops))) <> o0 zb_ops.
+Proof.
+  unfold zb_bounded. cbn. split; [|split; [|split; [|split]]].
+  - intros x. reflexivity.
+  - intros x. reflexivity.
+  - intros x. reflexivity.
+  - intros s Hs. destruct (Z.leb_spec (s + -100000) (-50000)); [reflexivity | lia].
+  - discriminate.
 Qed.
 
 Example causality_hypotheses_hold_in_provenance :
   (forall x, oadd prov_ops (o0 prov_ops) x = x) /\ (forall x, omul prov_ops (o0 prov_ops) x = o0 prov_ops) /\
   (forall x, odiv prov_ops (o0 prov_ops) x = o0 prov_ops) /\
-  (forall s, ofn prov_ops FExp (ofn prov_ops FScale (oadd prov_ops s (onegbig prov_ops))) = o0 prov_ops).
+  (forall s, True -> ofn prov_ops FExp (ofn prov_ops FScale (oadd prov_ops s (onegbig prov_ops))) = o0 prov_ops).
 Proof.
   cbn. repeat split; intros x; destruct x; reflexivity.
 Qed.
